@@ -51,3 +51,25 @@ func WriteFile(name string, data []byte, perm os.FileMode) error {
 		return &fs.PathError{Op: "write", Path: name, Err: syscall.EIO}
 	}
 }
+
+// Rename replaces os.Rename in rewritten code.
+func Rename(from, to string) error {
+	if !simrt.Active() {
+		return os.Rename(from, to)
+	}
+	if simrt.FSRename(from, to) != simrt.FSOK {
+		return &os.LinkError{Op: "rename", Old: from, New: to, Err: syscall.ENOENT}
+	}
+	return nil
+}
+
+// Remove replaces os.Remove in rewritten code.
+func Remove(name string) error {
+	if !simrt.Active() {
+		return os.Remove(name)
+	}
+	if simrt.FSRemove(name) != simrt.FSOK {
+		return &fs.PathError{Op: "remove", Path: name, Err: syscall.ENOENT}
+	}
+	return nil
+}
